@@ -34,6 +34,7 @@ type Input struct {
 	Steps   []Input      `json:"steps,omitempty"`    // seq: cases run one after the other in ONE process, reported as one case
 	Fresh   bool         `json:"fresh,omitempty"`    // run in a process that has not touched the implementation before
 	Backlog int          `json:"backlog,omitempty"`  // local: this many numbered messages while the receiver's handler is busy
+	Stall   *int         `json:"stall,omitempty"`    // stream (router): the peer stalls after this many segments for longer than the read timeout, then continues
 	FailAt  *int         `json:"fail_at,omitempty"`  // stream (conn, router): the sender's Write crossing this wire offset fails part-way
 }
 
@@ -305,13 +306,21 @@ func theRouter() *network.Router {
 
 var attachSeq int64
 
-func receiveRouter(segs [][]byte) (o streamObs) {
+func receiveRouter(segs [][]byte) (o streamObs) { return receiveRouterStall(segs, -1) }
+
+func receiveRouterStall(segs [][]byte, stall int) (o streamObs) {
 	b := theRouter()
 	var dl []delivered
 	logMu.Lock()
 	currentLog = &dl
 	logMu.Unlock()
 	sconn := newScriptConn(segs, false)
+	if stall >= 0 {
+		sconn.stallAt = 0
+		for i := 0; i < stall && i < len(segs); i++ {
+			sconn.stallAt += len(segs[i])
+		}
+	}
 	rc := network.VerifNewTCPConn(sconn, curSuite)
 	attachSeq++
 	remote := genIdentity(800000 + attachSeq%50)
@@ -709,7 +718,11 @@ func runStream(in *Input) lib.Case {
 				o = receiveConn(segs, pl)
 			} else {
 				lv = "LRouter"
-				o = receiveRouter(segs)
+				if in.Stall != nil {
+					o = receiveRouterStall(segs, *in.Stall)
+				} else {
+					o = receiveRouter(segs)
+				}
 			}
 		} else {
 			o.crash, o.hung = crash, sendHung
@@ -800,6 +813,11 @@ func runStream(in *Input) lib.Case {
 		lv, in.Limit, ident, poolCoq, strings.Join(coqItems, "; "), failCoq, cuts, chw.encode(o.wire), boolList(o.sends),
 		strings.Join(o.evs, "; "), natList(dIdx), coqBool(o.closed), coqBool(valeq), coqBool(tyeq),
 		coqBool(o.crash != ""), coqBool(o.hung != ""))
+	if in.Stall != nil && lv == "LRouter" {
+		coq = fmt.Sprintf("CStall %d%%N\n    %s\n    [%s]\n    (%s) %d\n    %s %s %s %s",
+			in.Limit, poolCoq, strings.Join(coqItems, "; "), cuts, *in.Stall,
+			natList(dIdx), coqBool(o.closed), coqBool(o.crash != ""), coqBool(o.hung != ""))
+	}
 	obs := map[string]interface{}{
 		"wire_bytes":    len(o.wire),
 		"segments":      len(cutSegments(o.wire, in.Cuts, in.Every)),
@@ -824,6 +842,9 @@ func runStream(in *Input) lib.Case {
 	if o.reads > 0 {
 		obs["read_calls"] = o.reads
 	}
+	if in.Stall != nil {
+		obs["stall"] = fmt.Sprintf("the receiver's Read returned a timeout after segment %d (the peer stalled for longer than the read timeout), the remaining segments followed", *in.Stall)
+	}
 	if o.stalled {
 		obs["stalled"] = "the receiver has read every byte; neither the closing sentinel arrived nor was the connection closed"
 	}
@@ -831,7 +852,7 @@ func runStream(in *Input) lib.Case {
 		obs["crash"] = o.crash
 	}
 	return lib.Case{Coq: coq, Class: in.Level + "-" + tag, Obs: obs,
-		Nontrivial: len(o.wire) > 4, Key: fmt.Sprintf("%s|%x|%v|%d", in.Level, o.wire, in.Cuts, in.Every)}
+		Nontrivial: len(o.wire) > 4, Key: fmt.Sprintf("%s|%x|%v|%d|%v", in.Level, o.wire, in.Cuts, in.Every, in.Stall != nil)}
 }
 
 func describeDelivered(ds []delivered) []string {
